@@ -87,7 +87,19 @@ def bam_arg(ds, root, sel, bam_of):
     """--bam value selecting exactly the samples `sel` in that order: plain paths when every BAM holds one sample,
     otherwise a 'sample<TAB>path' list file (the documented way to pick samples out of multi-sample BAMs)."""
     if len(set(bam_of.values())) == len(bam_of):
-        return [bam_of[s] for s in sel]
+        # three equivalent spellings of the same BAM list: paths on the command line, a one-column list file, a
+        # 'sample<TAB>path' list file (the choice depends on the selection only, so reruns of one selection agree)
+        import zlib
+
+        form = zlib.crc32(("|".join(sel) + os.path.basename(root)).encode()) % 3
+        if form == 0:
+            return [bam_of[s] for s in sel]
+        if form == 1:
+            p = os.path.join(root, "bampaths_%s.txt" % "_".join(sel))
+            with open(p, "w") as fh:
+                for s in sel:
+                    fh.write("%s\n" % bam_of[s])
+            return [p]
     p = os.path.join(root, "bams_%s.txt" % "_".join(sel))
     with open(p, "w") as fh:
         for s in sel:
